@@ -329,6 +329,10 @@ func (p *Program) checkErrSite(s *errSite) errVerdict {
 						idioms["ok-flag dispatch (callee returns ok=false with every error)"] = true
 					} else if storedToCaptured {
 						idioms["stored to a captured variable"] = true
+						if why := lastErrorWins(f, len(viaHelper) > 0); why != "" {
+							v.status, v.detail = "overwritten", "the error of "+s.callee+" is stored into a captured variable whether or not it is nil, and "+why+": a later success puts nil over an earlier failure"
+							return v
+						}
 						if why := capturedErrLost(f, s.errVal, viaHelper); why != "" {
 							v.status, v.detail = "swallowed", why
 							return v
@@ -345,6 +349,12 @@ func (p *Program) checkErrSite(s *errSite) errVerdict {
 					idioms["handed to options.errors"] = true
 				case storedToCaptured:
 					idioms["stored to a captured variable"] = true
+					if !(tested && nonNil) {
+						if why := lastErrorWins(f, len(viaHelper) > 0); why != "" {
+							v.status, v.detail = "overwritten", "the error of "+s.callee+" is stored into a captured variable whether or not it is nil, and "+why+": a later success puts nil over an earlier failure"
+							return v
+						}
+					}
 					if why := capturedErrLost(f, s.errVal, viaHelper); why != "" {
 						v.status, v.detail = "swallowed", why
 						return v
@@ -915,4 +925,53 @@ func fieldReturnedAsError(fa *ssa.FieldAddr) bool {
 func isNilConst(v ssa.Value) bool {
 	c, ok := v.(*ssa.Const)
 	return ok && c.Value == nil
+}
+
+// lastErrorWins: f is a closure that may run more than once per activation of its creator (it is handed to a call as a
+// callback -- a sort comparator, an iteration helper -- or created in a loop): an error it stores into a captured variable
+// without testing it first is overwritten by the nil of the next run. Returns "" when f runs at most once or when the
+// store goes through a helper (first-error bookkeeping decides there).
+func lastErrorWins(f *ssa.Function, viaHelper bool) string {
+	par := f.Parent()
+	if par == nil || viaHelper {
+		return ""
+	}
+	why := ""
+	allInstrs(par, func(b *ssa.BasicBlock, in ssa.Instruction) {
+		mc, ok := in.(*ssa.MakeClosure)
+		if !ok || mc.Fn != ssa.Value(f) {
+			return
+		}
+		if blockInLoop(b) {
+			why = "the closure is created once per round of a loop"
+		}
+		if mc.Referrers() == nil {
+			return
+		}
+		for _, r := range *mc.Referrers() {
+			ci, isCall := r.(ssa.CallInstruction)
+			if !isCall {
+				continue
+			}
+			if _, isGo := ci.(*ssa.Go); isGo {
+				continue
+			}
+			for _, a := range ci.Common().Args {
+				if a == ssa.Value(mc) {
+					why = "the closure is a callback of " + calleeName(ci.Common()) + ", which may call it any number of times"
+				}
+			}
+		}
+	})
+	return why
+}
+
+// blockInLoop: b lies on a cycle of its function's control-flow graph.
+func blockInLoop(b *ssa.BasicBlock) bool {
+	for _, s := range b.Succs {
+		if s == b || reaches(s, b) {
+			return true
+		}
+	}
+	return false
 }
